@@ -41,6 +41,19 @@ STDLIB_AXIOMS = {
 }
 
 
+def njobs(default=12):
+    """Parallelism for make / coqc: all cores on an idle machine, few when it is already oversubscribed."""
+    try:
+        load = os.getloadavg()[0]
+    except OSError:
+        load = 0
+    if load > 48:
+        return 2
+    if load > 20:
+        return 4
+    return default
+
+
 def go_env():
     env = dict(os.environ)
     env["GOFLAGS"] = "-mod=mod"
@@ -197,10 +210,17 @@ class Ctx:
         if other:
             self.notes.append("forbidden tokens in files this property does not depend on: %r" % (other[:5],))
         res["files"] = sorted(closure)
-        with Lock("coq"):
-            ensure_coq_makefile()
-            targets = [props_file + "o"] + [t for t in extra_targets]
-            rc, out = sh(["make", "-j12"] + targets, cwd=COQ, timeout=timeout)
+        targets = [props_file + "o"] + [t for t in extra_targets]
+        # fast path without the lock: everything this property needs is already up to date
+        rc, out = 1, ""
+        if os.path.exists(os.path.join(COQ, "Makefile")):
+            rc, out = sh(["make", "-q"] + targets, cwd=COQ, timeout=300)
+            if rc == 0:
+                out = "up to date (make -q)"
+        if rc != 0:
+            with Lock("coq"):
+                ensure_coq_makefile()
+                rc, out = sh(["make", "-j%d" % njobs()] + targets, cwd=COQ, timeout=timeout)
         res["log"] = out[-6000:]
         src = open(os.path.join(COQ, props_file)).read()
         thms = re.findall(r"^\s*(?:Theorem|Lemma|Corollary)\s+([A-Za-z0-9_']+)", src, re.M)
@@ -262,7 +282,7 @@ class Ctx:
                          cwd=os.path.dirname(path), timeout=timeout)
             return path, rc, out
 
-        with ThreadPoolExecutor(max_workers=jobs) as ex:
+        with ThreadPoolExecutor(max_workers=min(jobs, njobs())) as ex:
             for path, rc, out in ex.map(one, files):
                 if rc != 0:
                     errs[path] = out[-3000:]
@@ -279,7 +299,7 @@ class Ctx:
         os.makedirs(BIN, exist_ok=True)
         out_bin = os.path.join(BIN + ("_" + ALT_TAG if ALT else ""), pkg + ("_race" if race else ""))
         os.makedirs(os.path.dirname(out_bin), exist_ok=True)
-        with Lock("go" + ALT_TAG):
+        with Lock("go_" + pkg + ALT_TAG):
             modargs = []
             if ALT:
                 modfile = os.path.join(BUILD, "go_%s.mod" % ALT_TAG)
@@ -290,7 +310,13 @@ class Ctx:
                 modargs = ["-modfile=" + modfile]
             else:
                 try:
-                    shutil.copyfile(os.path.join(REPO, "go.sum"), os.path.join(HARNESS, "go.sum"))
+                    want = open(os.path.join(REPO, "go.sum"), "rb").read()
+                    dst = os.path.join(HARNESS, "go.sum")
+                    if not os.path.exists(dst) or open(dst, "rb").read() != want:
+                        tmp = dst + ".%d.tmp" % os.getpid()
+                        with open(tmp, "wb") as fh:
+                            fh.write(want)
+                        os.replace(tmp, dst)
                 except OSError:
                     pass
             cmd = ["go", "build", "-tags", "verif"] + modargs + (["-race"] if race else []) + ["-o", out_bin, "./" + pkg]
